@@ -12,9 +12,12 @@ for i, a in enumerate(sys.argv):
     if a == "--only": only = sys.argv[i + 1]
 ALL = [f"C{i:02d}" for i in range(1, 21)]
 wt = "/tmp/seedrun/repo"
+for i, a in enumerate(sys.argv):
+    if a == "--wt": wt = sys.argv[i + 1]
+out_json = os.path.join(V, ".work", "seed_results.json" if wt == "/tmp/seedrun/repo" else "seed_results_%s.json" % os.path.basename(os.path.dirname(wt)))
 subprocess.run(["git", "-C", "/repo", "worktree", "remove", "--force", wt], capture_output=True)
 subprocess.run(["git", "-C", "/repo", "worktree", "prune"])
-os.makedirs("/tmp/seedrun", exist_ok=True)
+os.makedirs(os.path.dirname(wt), exist_ok=True)
 subprocess.check_call(["git", "-C", "/repo", "worktree", "add", "-q", "--detach", wt, "HEAD"])
 results = {}
 try:
@@ -40,4 +43,4 @@ try:
             print(name, json.dumps(res), flush=True)
 finally:
     subprocess.run(["git", "-C", "/repo", "worktree", "remove", "--force", wt], capture_output=True)
-json.dump(results, open(os.path.join(V, ".work", "seed_results.json"), "w"), indent=1)
+json.dump(results, open(out_json, "w"), indent=1)
